@@ -637,6 +637,43 @@ def _uses_field(fn, bi, field):
     return False
 
 
+def own_block_layout(rec, F):
+    """ObjectHandle::size and Drop describe *this* allocation. A relocated list's old block forwards to the new one:
+    an accessor that follows the forwarding pointer (anything that dispatches on state()) answers for another block."""
+    R = rec.rule("F6.own-block", "ObjectHandle::size and <ObjectHandle as Drop>::drop read the layout of the block they are called on: nothing they call (three levels) dispatches on RawSharedVector::state()/List::state(), which follows a relocated list to its newest buffer - the old block would be counted (and deallocated) with the new buffer's size")
+    FORWARD = {p for p in F.fns if p.endswith("::state") and ("RawSharedVector" in p or "object::list::List" in p)}
+    if not FORWARD:
+        rec.anchor_lost("F6.own-block", "RawSharedVector::state / List::state")
+        return
+    n = 0
+    for path in ("laythe_core::reference::obj_reference::ObjectHandle::size", "<laythe_core::reference::obj_reference::ObjectHandle as core::ops::drop::Drop>::drop"):
+        fn = F.fn(path)
+        if fn is None:
+            rec.anchor_lost("F6.own-block", path)
+            continue
+        n += 1
+        bad = None
+        seen = set()
+        work = [(fn, [fn.name], 0)]
+        while work and bad is None:
+            f, trail, d = work.pop()
+            if f.path in seen:
+                continue
+            seen.add(f.path)
+            for bi, t in f.calls():
+                if t["f"] in FORWARD:
+                    bad = trail + [lastseg(t["f"])]
+                    break
+                g = F.fn(t["f"])
+                if g is not None and g.crate == "laythe_core" and d < 3 and g.kind != "Closure":
+                    work.append((g, trail + [g.name], d + 1))
+        ok = bad is None
+        rec.inst(R, "%s reads its own block" % fn.name, ok=ok, loc=fn.loc)
+        if not ok:
+            rec.finding(R, "F6.own-block/%s" % fn.name, "%s reaches %s: for a list that has grown, the old (forwarding) block is measured with the capacity of the buffer it forwards to - bytes_allocated after a collection is no longer the sum of the live blocks, next_gc is inflated, and the old block is deallocated with a layout it was not allocated with" % (fn.name, " -> ".join(bad)), loc=fn.loc, fn=fn.path)
+    rec.floor(R, "size/drop of ObjectHandle", n, 2)
+
+
 def relocation_layout(rec, F):
     R = rec.rule("F6.moved", "the capacity recorded in a relocated list's old block (mark_moved) is the capacity that block was allocated with, not the new allocation's: ObjectHandle::size and Drop read the stub's layout from that slot")
     n = 0
